@@ -8,6 +8,7 @@ L3  CredMon.tla on recorded executions of the real FileStore: sequential histori
     TLC searches the orders) and real kills (strace SIGKILL at every system call of a Put / Delete): the file is the
     complete old or the complete new document."""
 import json
+import subprocess
 import os
 import shutil
 from concurrent.futures import ThreadPoolExecutor
@@ -74,6 +75,18 @@ def crash_scenario(drv, base, sid, init, victim):
     after = json.loads(run_cmd([drv, "inspect", p0]).stdout)
     after.update({"e": "crash", "k": 0, "call": "none", "victim": vic})
     recs.append(after)
+    # write faults: no file may grow beyond n bytes (RLIMIT_FSIZE, write fails with EFBIG), for a sweep of n
+    size = os.path.getsize(p0) if os.path.exists(p0) else 0
+    for n in sorted({0, 1, 10, size // 4, size // 2, max(size - 1, 0), size + 64}):
+        pw = fresh("w%d" % n)
+        env = dict(os.environ, VERIF_FSIZE=str(n))
+        p = subprocess.run([drv, "victim", pw, opf], capture_output=True, text=True, env=env)
+        if p.returncode not in (0, 4) or "VERIF-DONE" not in p.stderr:
+            raise Infra("credentials write-fault scenario %d (limit %d) did not run: %s" % (sid, n, p.stderr[-300:]))
+        found = json.loads(run_cmd([drv, "inspect", pw]).stdout)
+        found.update({"e": "wfault", "limit": n, "res": "ok" if p.returncode == 0 else "err", "victim": vic})
+        recs.append(found)
+        kills += 1
     shutil.rmtree(d, ignore_errors=True)
     return recs, kills
 
@@ -102,7 +115,7 @@ def run(ctx, replay=None):
                 rec["t"], rec["i"] = 100000 + sid, i
                 f.write(json.dumps(rec, separators=(",", ":")) + "\n")
     files.append(crashfile)
-    log("  crash driver: %d (document, operation) pairs, %d killed runs" % (len(jobs), kills))
+    log("  crash driver: %d (document, operation) pairs, %d killed or write-faulted runs" % (len(jobs), kills))
     viol = monitor(ctx, "CredMon", files, label="L3", heap="4g", par=4)
     seen = set()
     for v in viol:
@@ -111,7 +124,7 @@ def run(ctx, replay=None):
         seen.add((v["inv"], v["t"]))
         tr = trace_of(v["file"], v["t"], 200)
         upto = [x for x in tr if x["i"] <= v["i"]]
-        sc = {"history": v["t"], "init": upto[0].get("raw"), "ops": [x for x in upto if x["e"] in ("op", "conc", "crash")][-6:]}
+        sc = {"history": v["t"], "init": upto[0].get("raw"), "ops": [x for x in upto if x["e"] in ("op", "conc", "crash", "wfault")][-6:]}
         report(ctx, "cred-history", v["inv"], sc, upto[-4:], what="%s failed at event %d of history %d: %s" % (
             v["inv"], v["i"], v["t"], json.dumps(upto[-1])[:400]))
     return {
